@@ -96,17 +96,33 @@ package sm2
 // ---- encryption (C07). The public point Q is an input of every attempt: a retry (t all zero, which
 // has probability 2^-8n for an n-byte message) must start from the same Q. The all-zero test of
 // step A5 is on t = KDF(x2 || y2, klen), the value c2 holds at that point.
-// randomPoint is assumed to touch only memory it allocates (and the random source).
-//@ func randomPoint trusted
-//@   requires c != nil && c.N != nil
-//@   ensures err == nil ==> k != nil && p != nil && ghost(ptv, p) == SBMUL(ghost(natv, k)) && 1 <= ghost(natv, k) && ghost(natv, k) < MODV(objof(c.N))
+// the curve description built by p256(): 256-bit order n, nMinus1 == n - 1
+//@ pred curveok(c) := c != nil && c.curve != nil && c.newPoint != nil && c.N != nil && c.nMinus1 != nil && MSIZE(objof(c.N)) == 32 && MBITS(objof(c.N)) == 256 && MODV(objof(c.N)) > 2 && ghost(natv, c.nMinus1) == MODV(objof(c.N)) - 1
+
+// ---- the secret scalar (C12): k is exactly the last 32-byte block read from the caller's random
+// source (big-endian, nothing masked, reduced or reused), accepted only if 0 < k < n (and k != n-1
+// where asked); every rejected candidate costs exactly one further block; a failing source gives an
+// error and no point.
+//@ func randomPoint property C12,C06,C07
+//@   requires curveok(c) && rand != nil
+//@   fnspec newPoint: std:pointCreator
+//@   let P0 := ghost(rndpos, id(rand))
+//@   let N := MODV(objof(c.N))
+//@   ensures err == nil ==> k != nil && p != nil && ghost(ptv, p) == SBMUL(ghost(natv, k))
+//@   ensures err == nil ==> ghost(natv, k) == RNDV(id(rand), ghost(rndpos, id(rand)) - 32, 32) && 1 <= ghost(natv, k) && ghost(natv, k) < N
+//@   ensures err == nil && checkOrderMinus1 ==> ghost(natv, k) != N - 1
+//@   ensures ghost(rndpos, id(rand)) >= P0 + 32 || err != nil
+//@   ensures (ghost(rndpos, id(rand)) - P0) % 32 == 0 || err != nil
+//@   ensures err != nil ==> p == nil
 //@   fresh k
-//@   fresh p
-//@   modifies nothing
+//@   freshornil p
+//@   modifies ghost(rndpos, id(rand))
+//@   loop 1 invariant k != nil && objof(k) < 0 && ghost(rndpos, id(rand)) >= P0 && (ghost(rndpos, id(rand)) - P0) % 32 == 0
+//@   coverreturns
 
 //@ func encryptSM2EC property C07
 //@   coverreturns
-//@   requires c != nil && c.curve != nil && c.newPoint != nil && c.N != nil && pub != nil && opts != nil && len(msg) <= 4000000000
+//@   requires curveok(c) && random != nil && pub != nil && opts != nil && len(msg) <= 4000000000
 //@   fnspec newPoint: std:pointCreator
 //@   loop 1 let S := state()
 //@   loop 1 invariant unchanged(S, *Q) && 0 <= retryCount && retryCount <= 100
@@ -170,14 +186,14 @@ package sm2
 // attempt, with r != 0, r + k != 0 (mod n) and s != 0 - the retry conditions of steps A5 and A6.
 //@ func signSM2EC property C06
 //@   coverreturns
-//@   requires c != nil && c.N != nil && priv != nil && priv.D != nil && MODV(objof(c.N)) > 1
+//@   requires curveok(c) && rand != nil && priv != nil && priv.D != nil
 //@   let N := MODV(objof(c.N))
 //@   bind after call inverseOfPrivateKeyPlus1#1: DINV := ghost(natv, result0)
 //@   bind after call hashToNat#1: E0 := ghost(natv, e)
 //@   bind after call randomPoint#1: K0 := ghost(natv, result0)
 //@   bind after call randomPoint#1: X1 := PX(ghost(ptv, result1))
 //@   bind after call SetBytes#1: DV := ghost(natv, result0)
-//@   loop 1 invariant ghost(natv, e) == E0 && ghost(natv, inverseDPlus1) == DINV && e != nil && inverseDPlus1 != nil
+//@   loop 1 invariant ghost(natv, e) == E0 && ghost(natv, inverseDPlus1) == DINV && e != nil && inverseDPlus1 != nil && curveok(c)
 //@   assert before call encodeSignature#1: BEV(arr(arg0), offof(arg0), len(arg0)) == (X1 % N + E0) % N && BEV(arr(arg0), offof(arg0), len(arg0)) != 0
 //@   assert before call encodeSignature#1: (K0 + BEV(arr(arg0), offof(arg0), len(arg0))) % N != 0
 //@   assert before call encodeSignature#1: BEV(arr(arg1), offof(arg1), len(arg1)) == MULM((K0 - MULM(DV, BEV(arr(arg0), offof(arg0), len(arg0)), N)) % N, DINV, N) && BEV(arr(arg1), offof(arg1), len(arg1)) != 0
